@@ -394,7 +394,7 @@ fn main() {
     }
     // parent: every Database opened in a process leaves file descriptors behind, so the histories run in child
     // processes of 6 histories each, until the case or time budget is used up
-    let budget: usize = std::env::var("SV_CASES").ok().and_then(|x| x.parse().ok()).unwrap_or(if thorough { 6000 } else { 300 });
+    let budget: usize = std::env::var("SV_CASES").ok().and_then(|x| x.parse().ok()).unwrap_or(if thorough { 6000 } else { 700 });
     let secs: u64 = std::env::var("SV_BUDGET_S").ok().and_then(|x| x.parse().ok()).unwrap_or(if thorough { 840 } else { 55 });
     let deadline = now_secs() + secs;
     let exe = std::env::current_exe().unwrap();
